@@ -73,7 +73,7 @@ func checkC03(c *Ctx) {
 		"(AEAD-cbc-hmac) the objects returned by aescbcaead's exported constructors (found by interpreting the constructors; their type, fields and helper methods are resolved through the dynamic type, no unexported name is used) reject wrong key sizes; their Open rejects wrong nonce sizes, partial blocks, short inputs and tag mismatches with an error instead of panicking and compares all tagSize bytes of the received and of the computed tag (16/24/32); Seal/Open key AES with ENC_KEY_LEN bytes, HMAC with MAC_KEY_LEN bytes and the RFC 7518 hash and feed the MAC with A || IV || E || AL (AL = bit length of A, always present) for empty, nil and non-empty associated data; NonceSize/Overhead report 16 / the tag size; " +
 		"(KW-rfc3394) aeskw.Wrap/Unwrap reject inputs that are not whole 64-bit blocks / too short with an error instead of panicking or silently ignoring bytes, fail closed on the IV check, which compares all 8 bytes of A, return len+8 / len-8 bytes, and in both the loop-variant step counter (followed into same-package helpers, closures and captured variables) reaches a big-endian byte encoding (binary.BigEndian.PutUintN/AppendUintN or single-byte stores of t>>k) with at least its low 32 bits — a narrowing of t to 8/16 bits or a little-endian encoding is reported, shapes the bit-flow analysis cannot classify are UNDECIDED; " +
 		"(PAD-pkcs7) PadPKCS7 returns len+16-len%16 bytes; UnpadPKCS7, interpreted on a buffer of symbolic bytes whose last byte is a chosen pad length P, rejects P=0 and P>size, accepts 1<=P<=size stripping exactly P bytes, and on every accepting path has compared each padding byte with P (==/!=, bytes.Equal, hmac.Equal, subtle.ConstantTimeCompare, bytes.HasSuffix/HasPrefix against a run of P) without constraining any other byte; a padding byte that is read but flows into arithmetic the interpreter does not model is UNDECIDED. " +
-		"How code is followed: static calls, closures with their captured variables, bound methods, function values whose target is known on the path (also when taken from local or package-level slices/maps, whose contents are those the package initialiser gives them), calls through interfaces declared in the module when the dynamic type is known, deferred calls at every exit, named results; crypto.Signer/crypto.Decrypter method forms, NewGCMWithNonceSize(12)/NewGCMWithTagSize(16), sha256.New/sha512.New384/sha512.New are treated as the package-level primitives they are documented to equal; a sentinel wrapped with fmt.Errorf(%w) counts as that sentinel. A call whose target cannot be resolved, a call through a module interface of unknown dynamic type or a go statement makes the path imprecise (UNDECIDED, never VIOLATION); in 'primitive fails' scenarios an accepting path that goes through no primitive the checker can make fail is UNDECIDED. " +
+		"How code is followed: static calls, closures with their captured variables, bound methods, function values whose target is known on the path (also when taken from local or package-level slices/maps, whose contents are those the package initialiser gives them), calls through interfaces declared in the module when the dynamic type is known or the module has a single implementation, generic helpers with the type arguments of the call site, functions run through sync.Once.Do, deferred calls at every exit, named results; crypto.Signer/crypto.Decrypter method forms, NewGCMWithNonceSize(12)/NewGCMWithTagSize(16), sha256.New/sha512.New384/sha512.New are treated as the package-level primitives they are documented to equal; a sentinel wrapped with fmt.Errorf(%w) counts as that sentinel. A call whose target cannot be resolved, a call through a module interface of unknown dynamic type or a go statement makes the path imprecise (UNDECIDED, never VIOLATION); in 'primitive fails' scenarios an accepting path that goes through no primitive the checker can make fail is UNDECIDED; 'no path returns output' is only concluded when no branch of an undecided test was left unexplored (consecutive-take limit) and the step/path budget was not exhausted, otherwise UNDECIDED. " +
 		"NOT decided: that decryption inverts encryption byte for byte, interoperability of the produced bytes beyond primitive/parameter/layout selection (trusted: Go standard library, x/crypto; the RFC 3394 round structure beyond the counter encoding (number of rounds, that the encoded counter is XORed into A at the right byte positions), the PKCS#7 pad byte values, which half of the CBC-HMAC key is the MAC key are content-level facts pinned only by the repository's vector tests), that every single-byte mutation is rejected (follows from the primitives' authentication, which is assumed), PSS salt options, constant-time behaviour, RSA key-size handling inside the standard library, the Ed25519 curve check beyond key kind."
 	r.Assumptions = append(r.Assumptions,
 		"documented contracts of the standard library: aes.NewCipher accepts exactly 16/24/32-byte keys; cipher.NewGCM on an AES block never fails and has a 12-byte nonce and 16-byte tag; NewCBCEncrypter/Decrypter panic unless len(iv)==16; BlockMode.CryptBlocks panics on partial blocks or a short destination; AEAD.Seal/Open panic on a nonce of the wrong length; chacha20poly1305.New/NewX accept exactly 32-byte keys; crypto.Hash(0).New panics",
